@@ -4,3 +4,6 @@ import "testing"
 
 // TestWorker is the only entry point; it is driven by environment variables (see runner.go).
 func TestWorker(t *testing.T) { Worker(t) }
+
+// TestRaceAux is the auxiliary free-running stress (thorough tier of C16, built with -race).
+func TestRaceAux(t *testing.T) { RaceAux(t) }
